@@ -22,3 +22,15 @@ func (w *World) ConfirmEpoch(shardID int, epoch uint32) {
 	}
 	w.shards[shardID].notifier.confirm(epoch, 0)
 }
+
+// SetDepHook installs (nil: removes) a function called at every dependency call of the executing built-in function
+// (storage writes, account loads / saves, marshal / unmarshal, payable queries, account-level operations).
+func (w *World) SetDepHook(h func(letter byte)) { w.tr.hook = h }
+
+// LoadOrCreateAccount returns the account object of addr on the shard, creating it when absent (concurrency harness).
+func (w *World) LoadOrCreateAccount(shardID int, addr []byte) *Account {
+	if shardID < 0 || shardID >= len(w.shards) {
+		return nil
+	}
+	return w.shards[shardID].accounts.getOrCreate(addr)
+}
